@@ -49,18 +49,35 @@ def stepContains (ins impl : List String) : Option String := do
   let abs := absSec c.off c.t
   let (h, m, s) := clockOf abs
   let mc := contains off c.w c.t
-  let model := tabs [showB mc, toString (weekdayOf abs), toString h, toString m, toString s, toString c.off]
+  let model := tabs [showB mc, toString (weekdayOf abs), toString h, toString m, toString s, toString c.off, showB mc]
+  -- the property demands an answer at every instant: a panic is a failure
+  if impl.head? == some "PANIC" then pure (verdict false (some "C18.contains-panic") model) else
   let spec ← match impl with
-    | b :: _ => (parseBool b).map (fun ib =>
-        if specContainsOK off c.w c.t ib then none else some "C18.contains-wallclock")
-    | [] => none
+    | [b, _, _, _, _, _, bc] => do
+      let ib ← parseBool b
+      let ic ← parseBool bc
+      pure (if !specContainsOK off c.w c.t ib then some "C18.contains-wallclock"
+        else if !specContainsOK off c.w c.t ic then some "C18.clone-contains-wallclock"
+        else none)
+    | _ => none
   pure (verdict (model == tabs impl) spec model)
 
+def stepCtor (ins impl : List String) : Option String := do
+  let w ← match ins with
+    | ["empty"] => some emptyWeekly
+    | ["full"] => some fullWeekly
+    | _ => none
+  let model := tabs (hexEncode w.loc :: showDays w.days)
+  pure (verdict (model == tabs impl) none model)
+
 def stepApplied (ins impl : List String) : Option String := do
-  let c ← runP pContainsIn ins
+  let c ← match ins with
+    | site :: rest => if site == "global" || site == "client" then runP pContainsIn rest else none
+    | [] => none
   let off : Int → Int := fun _ => c.off
   let ma := servicesApplied off c.w c.t
   let model := tabs [showB ma, toString c.off]
+  if impl.head? == some "PANIC" then pure (verdict false (some "C18.applied-panic") model) else
   let spec ← match impl with
     | b :: _ => (parseBool b).map (fun ib =>
         if specAppliedOK off c.w c.t ib then none else some "C18.applied-wallclock")
@@ -74,12 +91,12 @@ def stepValidate (ins impl : List String) : Option String := do
   let model := match validate r with
     | .ok () => "ok"
     | .error e => tabs ["err", vErrName e]
-  let accepted ← match impl with
+  let acc ← match impl with
     | ["ok"] => some true
     | "err" :: _ => some false
     | _ => none
-  let spec := if specValidateOK r accepted then none else
-    some (if accepted then "C18.validate-accepts-forbidden" else "C18.validate-rejects-allowed")
+  let spec := if specValidateOK r acc then none else
+    some (if acc then "C18.validate-accepts-forbidden" else "C18.validate-rejects-allowed")
   pure (verdict (model == tabs impl) spec model)
 
 /-! C18.json / C18.yaml -/
@@ -162,6 +179,7 @@ def step (_ : Unit) (line : String) : Unit × String :=
       let r := match op with
         | "C18.contains" => stepContains ins impl
         | "C18.applied" => stepApplied ins impl
+        | "C18.ctor" => stepCtor ins impl
         | "C18.validate" => stepValidate ins impl
         | "C18.json" => stepDecode false ins impl
         | "C18.yaml" => stepDecode true ins impl
